@@ -325,3 +325,18 @@ Print Assumptions C15_lb_local_answers.
 Theorem C15_lb_usable_spec : forall mb b, lb_usable (Some mb, b) = true <-> b <= mb.
 Proof. exact lb_usable_spec. Qed.
 Print Assumptions C15_lb_usable_spec.
+
+(* ---- idle timeout by time inside the event machine; config setter coverage ---- *)
+Theorem C15_idle_tick_closes : forall cs s,
+  st_conn s = COpen -> st_idle s = true ->
+  exists s', s_step cs s ETick = Ok s' /\ st_conn s' = CDown 10 /\ st_log s' = st_log s /\ st_q s' = st_q s.
+Proof. exact idle_tick_closes. Qed.
+Print Assumptions C15_idle_tick_closes.
+
+Theorem C15_idle_tick_ignored_when_busy : forall cs s, st_idle s = false -> s_step cs s ETick = Ok s.
+Proof. exact idle_tick_ignored_when_busy. Qed.
+Print Assumptions C15_idle_tick_ignored_when_busy.
+
+Theorem C15_config_setter_covers_run : set_rt_covers_run_reads = true /\ cfg_response_timeout_fields = 3.
+Proof. exact config_setter_covers_run. Qed.
+Print Assumptions C15_config_setter_covers_run.
